@@ -481,7 +481,7 @@ func userForestCase(c *core.Ctx, i int, r *rand.Rand) {
 	if maxDepth >= 3 && rich {
 		c.Nontrivial(sig)
 	}
-	if i%100 == 0 {
+	if c.WantSample() {
 		c.Sample(desc)
 	}
 }
